@@ -4,7 +4,7 @@
     compute_contact_force; order_points' permutation and the barycentric transforms X are inputs). *)
 From Coq Require Import ZArith QArith Reals Lra List Bool PrimFloat.
 From D3 Require Import Base.Ops Base.Vec Base.RVec Spec.Convex Checker.Poly Model.AabbTree Model.Hydro
-     Proofs.HydroPlane Proofs.HydroHalfplanes Proofs.HydroPair Proofs.HydroForce Proofs.HydroParallel Proofs.HydroOrder Proofs.HydroInside.
+     Proofs.HydroPlane Proofs.HydroHalfplanes Proofs.HydroPair Proofs.HydroForce Proofs.HydroParallel Proofs.HydroOrder Proofs.HydroInside Proofs.HydroBary.
 Import ListNotations.
 Local Close Scope Q_scope.
 
@@ -279,6 +279,23 @@ Theorem C15_pressure_nonneg : forall (t : @tetra R) (e plane : V4 R) (poly : lis
   (0 <= dot f (xyz plane) /\ 0 <= area)%R.
 Proof. exact pressure_nonneg. Qed.
 
+(** quantitative: vertices inside up to eps (what the halfplane layer gives, eps = EPSILON) bound the
+    integrated pressure below by -eps E sum(e) x area *)
+Theorem C15_pressure_lower_bound : forall (eps : R) (t : @tetra R) (e plane : V4 R) (poly : list (V3 R)) (E : R),
+  nondegenerate t -> nonneg4 e -> (0 <= E)%R -> (0 <= eps)%R -> Forall (inside_eps eps t) poly ->
+  dot (xyz plane) (xyz plane) = 1%R ->
+  let '(_, f, area) := compute_contact_force t e plane poly E in
+  (- (eps * E * (c0 e + c1 e + c2 e + c3 e)) * area <= dot f (xyz plane) /\ 0 <= area)%R.
+Proof. exact pressure_lower_bound. Qed.
+(** the rows of a barycentric transform are Cramer's barycentric coordinates (the two vocabularies
+    used by the halfplane layer and by compute_contact_force / the checker coincide) *)
+Theorem C15_bary_row_is_cramer : forall (X : @M4 R) (t : @tetra R) (p : V3 R),
+  is_bary X t -> nondegenerate t ->
+  let '(r0, r1, r2, r3) := X in
+  bary_row r0 p = c0 (bary_coords t p) /\ bary_row r1 p = c1 (bary_coords t p) /\
+  bary_row r2 p = c2 (bary_coords t p) /\ bary_row r3 p = c3 (bary_coords t p).
+Proof. exact bary_row_is_cramer. Qed.
+
 Local Open Scope R_scope.
 Definition rT : @tetra R := (V 0 0 0, V 1 0 0, V 0 1 0, V 0 0 1).
 Example C15_pressure_nonneg_nonvacuous :
@@ -317,4 +334,6 @@ Print Assumptions C15_contact_plane_swap.
 Print Assumptions C15_order_independent_nonvacuous.
 Print Assumptions C15_force_parallel_normal.
 Print Assumptions C15_pressure_nonneg.
+Print Assumptions C15_pressure_lower_bound.
+Print Assumptions C15_bary_row_is_cramer.
 Print Assumptions C15_pressure_nonneg_nonvacuous.
